@@ -21,6 +21,9 @@ func init() {
 			readLineRules(c, "C10")
 			// where the dialer connects to: host and port of the URL, defaults 80 / 443
 			c20DialConn(c)
+			// a handshake that ended while the context was being cancelled is not a success: the
+			// watcher has poisoned the connection's deadline
+			c20Watcher(c)
 		},
 	})
 }
